@@ -19,7 +19,7 @@ func init() { families["c14"] = runC14 }
 // Case: "<fileName-hex> <maxAge> <name-hex>:<kind>:<offsetSeconds> ... [ |<seconds after the first pass> <name-hex>:<kind>:<offsetSeconds> ... ]..."
 //   every "|<s>" is a cleanup pass of the SAME appender followed by a wait until <s> seconds after the case began; the entries after it are
 //   written / touched / created before the next pass; a final pass ends the case
-//   kind 0 regular file, 1 directory, 2 symlink to a regular file outside the directory,
+//   kind 0 regular file, 1 directory, 2 symlink to a (fresh) regular file outside the directory, 4 symlink to a regular file outside whose mtime is the given one,
 //   3 directory that itself contains an expired regular file named like one of this appender's own files (and a nested one below)
 // Observation: sorted hex names of the survivors.
 func runC14(cases []string, out *bufio.Writer, _ []string) {
@@ -75,6 +75,15 @@ func c14Case(base, target string, n int, c string) string {
 			os.Chtimes(path, mt, mt)
 		case "2":
 			os.Symlink(target, path)
+		case "4": // a symbolic link whose TARGET (a regular file elsewhere) has the given modification time
+			tdir := filepath.Join(base, "targets")
+			os.MkdirAll(tdir, 0755)
+			tp := filepath.Join(tdir, fmt.Sprintf("%d-%s", n, p[0]))
+			os.WriteFile(tp, []byte("archived"), 0644)
+			os.Chtimes(tp, mt, mt)
+			os.Remove(path)
+			os.Symlink(tp, path)
+			inners = append(inners, tp) // the archived file itself must survive as well
 		case "3":
 			os.MkdirAll(filepath.Join(path, "deeper"), 0755)
 			old := now.Add(-800 * time.Hour)
